@@ -40,7 +40,7 @@ type c20Handle struct {
 }
 
 type c20Mut struct {
-	Kind string `json:"kind"` // cut | short | pad | framelen | field | subst | typebyte | wrongid | body
+	Kind string `json:"kind"` // cut | short | pad | grow | framelen | field | subst | typebyte | wrongid | body
 	Arg  int    `json:"arg"`  // cut offset / field index / substituted type
 	Val  uint32 `json:"val"`  // replacement value
 	Body string `json:"body,omitempty"`
@@ -57,6 +57,8 @@ func (m *c20Mut) String() string {
 		return fmt.Sprintf("reply truncated to %d bytes, frame length adjusted", m.Arg)
 	case "pad":
 		return fmt.Sprintf("%d extra bytes inside the frame", m.Arg)
+	case "grow":
+		return fmt.Sprintf("field %d and its payload grown by %d bytes (well-formed, but more than was asked for)", m.Arg, m.Val)
 	case "framelen":
 		return fmt.Sprintf("frame length <- %d then EOF", m.Val)
 	case "field":
@@ -497,6 +499,16 @@ func (m *c20Mut) lie(rep c07Pkt) (out []byte, eof bool) {
 		}
 		binary.BigEndian.PutUint32(b, uint32(len(b)-4))
 		return b, false
+	case "grow":
+		if m.Arg < len(rep.flds) {
+			f := rep.flds[m.Arg]
+			for i := uint32(0); i < m.Val; i++ {
+				b = append(b, byte(0xb0+i))
+			}
+			binary.BigEndian.PutUint32(b[f.off:], f.val+m.Val)
+			binary.BigEndian.PutUint32(b, uint32(len(b)-4))
+		}
+		return b, false
 	case "framelen":
 		binary.BigEndian.PutUint32(b, m.Val)
 		return b, true
@@ -832,6 +844,7 @@ func (k *c20Checker) run(op *c20Op, cs *c20Case) (key, msg, outcome string, last
 		}
 		return c20Body(op, cs.Reply, cs.Mut, r), judge
 	}
+	reg.Announce("c20:"+cs.Op, fmt.Sprintf("%s, reply %d of its conversation (%s), %s", cs.Op, cs.Reply, cs.Honest, cs.Mut))
 	res := explore.Run(explore.Config{Prop: "C20", Strategy: "db", Bound: k.bound, MaxSteps: 60000}, sc)
 	k.res.Evaluations += res.Evaluations
 	k.res.States += res.States
@@ -880,7 +893,9 @@ func (k *c20Checker) run(op *c20Op, cs *c20Case) (key, msg, outcome string, last
 	return "c20-" + v.Key + ":" + op.name, where + "\n" + v.Msg, "BAD:" + v.Key, first
 }
 
-var c20Repl = func(n uint32) []uint32 { return []uint32{0, 1, n - 1, n + 1, 1<<31 - 1, 1<<32 - 1} }
+var c20Repl = func(n uint32) []uint32 {
+	return append([]uint32{0, 1, n - 1, n + 1, 1<<31 - 1, 1<<32 - 1}, wrapValues()...)
+}
 
 // c20Bodies lists the tiny frame bodies: all of length <= 2, or the covering subset.
 func c20Bodies(all bool) []string {
@@ -929,6 +944,11 @@ func c20Mutations(rep c07Pkt, quick, allBodies bool) []*c20Mut {
 		}
 	}
 	ms = append(ms, &c20Mut{Kind: "pad", Arg: 1}, &c20Mut{Kind: "pad", Arg: 7})
+	for i, f := range rep.flds {
+		if f.off+4+int(f.val) == n { // the field's payload is the tail of the frame (DATA payload, last string)
+			ms = append(ms, &c20Mut{Kind: "grow", Arg: i, Val: 1}, &c20Mut{Kind: "grow", Arg: i, Val: 8})
+		}
+	}
 	fl := uint32(n - 4)
 	for _, v := range append(c20Repl(fl), 256<<10+1, 16<<20) {
 		if v != fl {
@@ -1088,7 +1108,7 @@ func init() {
 			if tier == "thorough" {
 				return []reg.Job{
 					{Part: "C20/replies", Build: "instr", Args: map[string]string{"bodies": "all"}, Shards: 16, BudgetS: 1200, Label: "all operations, all cuts, all bodies of length <= 2"},
-					{Part: "C20/replies", Build: "instr", Args: map[string]string{"bound": "1", "kinds": "short+field+subst+typebyte+wrongid+pad+cut+framelen"}, Shards: 16, BudgetS: 900, Optional: true,
+					{Part: "C20/replies", Build: "instr", Args: map[string]string{"bound": "1", "kinds": "short+field+subst+typebyte+wrongid+pad+grow+cut+framelen"}, Shards: 16, BudgetS: 900, Optional: true,
 						Label: "all operations, all mutations except tiny bodies, all schedules with one deviation (db1)"},
 				}
 			}
